@@ -437,6 +437,37 @@ pub fn histories(win: bool, tier: &str, seed: u64, with_ext: bool, from_empty: b
             }
         }
     }
+    // REVISITS: the same long argument pushed again after the buffer shrank (spare capacity, the buffer an
+    // ancestor of the argument), a descendant of it, a re-spelling of it — a reuse of the old allocation or a
+    // shortcut for "the argument continues the buffer" would show only here
+    if !from_empty {
+        let sep: u8 = if win { b'\\' } else { b'/' };
+        let longs: Vec<Vec<u8>> = args.iter().filter(|a| a.len() >= 24).cloned().collect();
+        let few_starts: Vec<Vec<u8>> = starts.iter().step_by((starts.len() / 4).max(1)).take(4).cloned().collect();
+        for x in &longs {
+            let mut child = x.clone();
+            child.push(sep);
+            child.push(b'z');
+            let mut respelt = x.clone();
+            if let Some(i) = x.iter().rposition(|b| *b == sep) {
+                respelt.insert(i, sep);
+            }
+            let mut rooted = vec![sep];
+            rooted.extend_from_slice(x);
+            for x in [x.clone(), rooted] {
+                for st in &few_starts {
+                    let hx = hex(&x);
+                    out.push(format!("hist {} {} push:{} pop push:{}", e(win), hex(st), hx, hx));
+                    out.push(format!("hist {} {} push:{} pop pop push:{}", e(win), hex(st), hx, hx));
+                    out.push(format!("hist {} {} push:{} pop push:{}", e(win), hex(st), hx, hex(&child)));
+                    out.push(format!("hist {} {} push:{} pop push:{}", e(win), hex(st), hex(&child), hx));
+                    out.push(format!("hist {} {} push:{} pop push:{}", e(win), hex(st), hx, hex(&respelt)));
+                    out.push(format!("hist {} {} push:{} setfn:{} push:{}", e(win), hex(st), hx, hex(b"n"), hx));
+                    out.push(format!("hist {} {} push:{} clear push:{}", e(win), hex(st), hx, hx));
+                }
+            }
+        }
+    }
     let n = if t { 200_000 } else { 15_000 };
     let maxops = if t { 12 } else { 6 };
     for _ in 0..n {
